@@ -14,9 +14,9 @@
     spec fn ev_remove(&self, id: Index) -> Seq<ComponentEvent>;
     spec fn ev_get_mut(&self, id: Index) -> Seq<ComponentEvent>;
 
-    unsafe fn clean<B>(&mut self, has: B)
+    unsafe fn clean<B>(&mut self, has_: B)
         where B: BitSetLike
-        requires forall|i: Index| has.bview().contains(i) <==> old(self).has(i),
+        requires forall|i: Index| has_.bview().contains(i) <==> old(self).has(i),
         ensures
             /*@L:trait.clean.empty*/ forall|i: Index| !final(self).has(i) /*@E*/,
             /*@L:trait.clean.wf*/ old(self).us_wf() ==> final(self).us_wf() /*@E*/,
